@@ -302,8 +302,6 @@ def run_case(ctx, name, params):
                     ops.append(("reopen_in_write_mode",))
                     ctx.count("reopens_in_write_mode")
                 if r.random() < 0.15 and model:
-                    if not ts:
-                        store._conn.commit() if store._conn else None
                     view = read_back(ctx, path, wit)
                     if view is None or not compare(ctx, view, path, model, p, wit, "history"):
                         return
